@@ -281,3 +281,31 @@ RECIPES += [
     _rev("neutral", _S, "np.abs(np.diff(s)) > 0", "any non-zero jump of the slope sign (0 and 2 are the only jumps on retained samples)"),
     _rev("neutral", _D, "d[:-1] / d[1:] < 0", "sign of the quotient of the slopes (true division is floating point; slopes of retained samples are never 0)"),
 ]
+
+# ---- third pass: refactorings of other kinds (each verified on the pyyeti tests and, for findap, on random int8 .. float64 signals) and their broken siblings
+_FU_TAIL = "    pv = np.hstack((True, abs(m) > stol))\n    return pv"
+_SCATTER = "        PV = np.zeros(y.size, bool)  # non-uniques are not peaks\n        PV[u] = pv\n"
+_ENDPOINT = "        if yu.size > 2:\n            pv[-1] = yu[-1] != yu[-2]\n"
+_GB_SIDES = _GB_VEC.split("        if check_bounds:\n", 1)[1]
+
+RECIPES += [
+    ("C10", "neutral", [], CYC, _GB_SIDES, "            lo_out = (mn <= bb[0]) if right else (mn < bb[0])\n            hi_out = (mx > bb[-1]) if right else (mx >= bb[-1])\n"
+     "            out_of_bounds = bool(lo_out or hi_out)\n", "verdict assembled from one ternary per side"),
+    ("C10", "neutral", [], CYC, _GB_SIDES, "            where = np.digitize([mn, mx], bb, right=right)\n            out_of_bounds = bool(where[0] == 0 or where[1] == len(bb))\n",
+     "verdict obtained by asking np.digitize itself where the extremes fall"),
+    ("C10", "break", ["C10-R5"], CYC, _GB_SIDES, "            where = np.digitize([mn, mx], bb)\n            out_of_bounds = bool(where[0] == 0 or where[1] == len(bb))\n",
+     "np.digitize verdict without `right`: a smallest value on the first edge of right-closed bins is reported in bounds"),
+    ("C10", "neutral", [], LOC, _FU_TAIL, "    pv = np.ones(y.size, bool)\n    pv[1:] = abs(m) > stol\n    return pv", "find_unique's mask allocated and block-stored instead of concatenated"),
+    ("C10", "break", ["C10-R6"], LOC, _FU_TAIL, "    pv = np.ones(y.size, bool)\n    pv[1:] = abs(m) >= stol\n    return pv", "allocated mask with the non-strict tolerance comparison"),
+    ("C10", "neutral", [], CYC, _SCATTER, "        PV = u.copy()  # non-uniques are not peaks\n        PV[u] = pv\n", "expansion starts from a copy of the retained-samples mask (False exactly where nothing is stored)"),
+    ("C10", "break", ["C10-R6"], CYC, _SCATTER, "        PV = np.ones(y.size, bool)\n        PV[u] = pv\n", "expansion starts all True: every removed repeat is reported as a peak"),
+    ("C10", "neutral", [], CYC, _ENDPOINT, "        pv[-1] = yu.size <= 2 or yu[-1] != yu[-2]\n", "end-point guard folded into the stored value"),
+    ("C10", "break", ["C10-R6"], CYC, _ENDPOINT, "        pv[-1] = yu.size > 2 and yu[-1] != yu[-2]\n", "folded the wrong way: the second of two retained samples is dropped"),
+    ("C10", "break", ["C10-R6"], CYC, _ENDPOINT, "        if yu.size > 2:\n            pv[-1] = yu[-1] == yu[-2]\n", "end-point test inverted: the last retained sample is always dropped"),
+    ("C10", "neutral", [], CYC, "        if y.size == 1:\n            return np.array([True])\n\n        # first, find", "        if len(y) < 2:\n            return np.ones(len(y), bool)\n\n        # first, find",
+     "short-signal exit tested with len(y) < 2"),
+    ("C10", "neutral", [], FDE, _BINCOUNT, "    BinCount = Count - np.hstack((Count[:, 1:], np.zeros((LF, 1))))", "BinCount as Count minus Count shifted by one column"),
+    ("C10", "break", ["C10-R3"], FDE, _BINCOUNT, "    BinCount = Count - np.hstack((np.zeros((LF, 1)), Count[:, :-1]))", "shifted the wrong way: differences of the wrong sign, first bin keeps the total"),
+    ("C10", "neutral", [], FDE, "        G1 = Amax**2 / (Q * pi * freq * lnN0)", "        G1 = np.square(Amax) / Q / pi / freq / lnN0", "G1 with np.square and chained divisions"),
+    ("C10", "neutral", [], FDE, "            k = np.argmax(tantheta)\n            if tantheta[k] > 0:", "            k = int(tantheta.argmax())\n            if tantheta.max() > 0:", "argmax as a method, the test on max()"),
+]
